@@ -80,7 +80,8 @@ class FakeQuery(object):
         self.filtered = False
 
     def filter(self, expr):
-        self.uid = expr.right.value
+        # `column == None` renders as `uid IS NULL` (right side is a Null() element): matches no row
+        self.uid = getattr(expr.right, "value", None)
         self.filtered = True
         return self
 
@@ -88,6 +89,8 @@ class FakeQuery(object):
         if not self.filtered:
             return list(self.s.objs)
         # SQLite INTEGER-affinity comparison of the key with a text identifier
+        if self.uid is None:
+            return []
         return [o for o in self.s.objs if str(o.unique_identifier) == str(self.uid)]
 
     def one(self):
